@@ -432,6 +432,7 @@ func c20Show(fr []c20Frame) string {
 }
 
 func runC20(c *Ctx) error {
+	c.c20PackageFault()
 	c.Rep.Rule = "backtrace: programs built from a random call tree of depth 1..7 (up to ~25 functions and methods emitted in random order, completed calls before the fault, recursion of depth 1..30), faults with the operator and its last operand on different lines, calls as statement / in an expression / in if, else, for, range and switch bodies / through a function value / as an argument of another call / with arguments over several lines, one fault among 23 kinds (compound assignments with every operator incl. <<= and >>=, index, negative index, slice bounds, string index, integer division and modulo by zero, explicit panic, nil struct field read and write, nil method receiver, nil function value, nil map write) planted at a known line, 5% without fault; recursions of depth 1..30 whose failing operation is the recursive call itself (nil function value, nil receiver at the end of a list); each run with the optimizer off and on; distinct = distinct program; non-trivial = chain of at least 3 frames"
 	n := 120
 	if c.Thorough() {
@@ -667,6 +668,38 @@ func (c *Ctx) c20TopLevelFault() {
 			if got != want {
 				c.Rep.Violate(Violation{Kind: "oracle", Cut: "top-level-fault", Input: fmt.Sprintf("%s optimize=%v\n%s", name, opt, src), Impl: got, Oracle: want})
 			}
+		}
+	}
+}
+
+// c20PackageFault: a fault inside a method of a package imported through a path that differs from its name: methods
+// are named like the package's functions (<package>.<Type>.<method>), every line of the chain with its file and line
+func (c *Ctx) c20PackageFault() {
+	app := "package main\n\nimport \"lib/geom\"\n\nfunc run() int {\n\ts := geom.New(0)\n\treturn geom.Total(s)\n}\n\nfunc init() {\n\trun()\n}\n"
+	geom := "package geom\n\ntype Shape struct {\n\tw int\n}\n\nfunc New(w int) *Shape {\n\treturn &Shape{w: w}\n}\n\nfunc (s *Shape) Area(n int) int {\n\tif n > 0 {\n\t\treturn s.Area(n - 1)\n\t}\n\treturn 100 / s.w\n}\n\nfunc Total(s *Shape) int {\n\tsum := 0\n\tfor i := 0; i < 2; i++ {\n\t\tsum += s.Area(1)\n\t}\n\treturn sum\n}\n"
+	for _, dir := range []string{"lib/geom", "vendor/lib/geom", "geom"} {
+		sys := fstest.MapFS{"app/main.go": &fstest.MapFile{Data: []byte(app)}, dir + "/shape.go": &fstest.MapFile{Data: []byte(geom)}}
+		var err error
+		if e := try(func() { err = goat.New().Load(sys, "app") }); e != nil {
+			err = fmt.Errorf("PANIC escaped: %v", e)
+		}
+		var got []string
+		if err != nil {
+			for n, l := range strings.Split(err.Error(), "\n") {
+				l = strings.TrimSpace(strings.TrimPrefix(l, "error in run: "))
+				if n == 0 {
+					l = strings.SplitN(l, ": ", 2)[0]
+				}
+				if i := strings.LastIndex(l, ":"); i >= 0 {
+					l = l[:i] // without the column
+				}
+				got = append(got, l)
+			}
+		}
+		want := []string{"geom.Shape.Area(...) " + dir + "/shape.go:15", "geom.Shape.Area(...) " + dir + "/shape.go:13", "geom.Total(...) " + dir + "/shape.go:21", "main.run(...) app/main.go:7", "main.init(...) app/main.go:11", "app/main.go:10"}
+		c.Rep.Oracle["package-fault"]++
+		if strings.Join(got, " | ") != strings.Join(want, " | ") {
+			c.Rep.Violate(Violation{Kind: "oracle", Cut: "package-fault", Input: "package geom under " + dir + ":\n" + geom + "\n// app/main.go\n" + app, Impl: strings.Join(got, " | ") + fmt.Sprint(" err=", err), Oracle: strings.Join(want, " | ")})
 		}
 	}
 }
